@@ -134,6 +134,15 @@ def generate(seed, scratch, nvariants=3, hashseeds=None):
         for rev in ("1", "2"):
             for where in ("d1", "d2/inc"):
                 files[os.path.join(world["root"], where, f"table_r{rev}.h")] = {"lang": "c", "text": pad + f"int table_rev{rev};\n"}
+    if rs.random() < 0.1 and len(world["platforms"]) <= 6:
+        # two platforms that contribute no line at all (their only source is generated by a build that never ran)
+        for nm in ("idle_a", "idle_b"):
+            f = f"{W.TOP}/{world['root']}/{nm}_generated.c"
+            world["platforms"].insert(rs.randint(0, len(world["platforms"])),
+                                      {"name": nm, "db": f"proj/db/{nm}.json",
+                                       "entries": [{"file": f, "arguments": ["gcc", "-c", f]}]})
+    # the Python API also takes a code base made of several listed directories
+    multi_dir = sorted(rs.sample(["d1", "d2", "inc1", "inc2", "sub"], rs.randint(2, 4))) if rs.random() < 0.15 else None
     nfiles = len(files)
     nplat = len(world["platforms"])
     variants = []
@@ -149,7 +158,7 @@ def generate(seed, scratch, nvariants=3, hashseeds=None):
                          "creation_order": co if mode == "native" else None,
                          "platform_order": pp})
     return {"property": PID, "seed": seed, "world": world, "cfg": cfg,
-            "schedule": {"variants": variants, "clustering": rs.random() < 0.34,
+            "schedule": {"variants": variants, "clustering": rs.random() < 0.34, "multi_dir": multi_dir,
                          "real_subprocess": rs.random() < 0.04}}
 
 
@@ -179,7 +188,7 @@ def render_copies(world):
     return world
 
 
-def observe(world, top, sched_v, clustering):
+def observe(world, top, sched_v, clustering, multi_dir=None):
     """All observations of one schedule. The world is materialised under `top` by the caller."""
     hs = sched_v.get("hashseed")
     key = sched_v.get("scandir_key")
@@ -201,6 +210,16 @@ def observe(world, top, sched_v, clustering):
                                "metrics": True}],
         scandir_key=None if native else key, pool_key=pool_key), hashseed=hs)
     o = api["obs"][0]
+    if multi_dir:
+        dirs = [os.path.join(root, d) for d in multi_dir if os.path.isdir(os.path.join(root, d))]
+        if len(dirs) >= 2:
+            # what the set map holds, in the order the code base is iterated (a result: the API documents iteration)
+            sp = core.api_spec(world, top, analyses=[{"platforms": core.plat_specs(world, top, order=porder),
+                                                      "excludes": excl}],
+                               scandir_key=None if native else key, pool_key=pool_key, codebase_dirs=dirs)
+            m = runners.run_fresh("api_run", sp, hashseed=hs)["obs"][0]
+            obs["multi_dir"] = {"exc": bool(m["exc"]), "members": m.get("members"), "setmap": m.get("setmap"),
+                                "setmap_order": m.get("setmap_order")}
     obs["api_exc"] = o["exc"]
     obs["attr"] = o.get("attr")
     obs["setmap"] = o.get("setmap")
@@ -251,6 +270,8 @@ def compare(base, var):
         return "attribution_depends_on_schedule", {"diffs": d}
     if base["setmap"] != var["setmap"]:
         return "setmap_depends_on_schedule", {"baseline": base["setmap"], "variant": var["setmap"]}
+    if base.get("multi_dir") != var.get("multi_dir"):
+        return "multi_directory_code_base_depends_on_schedule", {"baseline": base.get("multi_dir"), "variant": var.get("multi_dir")}
     if base["members"] != var["members"]:
         return "membership_depends_on_schedule", {"baseline": base["members"], "variant": var["members"]}
     for k in (base["metrics"] or {}):
@@ -300,7 +321,7 @@ def execute(case, scratch):
     try:
         W.materialise(world, top)
         base = observe(world, top, {"hashseed": None, "scandir_key": "name", "platform_order": None},
-                       sched.get("clustering"))
+                       sched.get("clustering"), sched.get("multi_dir"))
         stats["variants"] += 1
         stats["cli_runs"] += 4
         if base["codebasin_rc"] not in (0,):
@@ -318,7 +339,7 @@ def execute(case, scratch):
             os.makedirs(top)
             W.materialise(world, top, {"creation_order": v.get("creation_order"),
                                        "platform_order": v.get("platform_order")})
-            var = observe(world, top, v, sched.get("clustering"))
+            var = observe(world, top, v, sched.get("clustering"), sched.get("multi_dir"))
             stats["variants"] += 1
             stats["cli_runs"] += 4
             orders.add(var["set_order"])
